@@ -1,7 +1,13 @@
 import Girc.Proofs.Pure
+import Girc.Gen.Facts
 /- C18 — the command handler runs exactly the addressed command. Property theorems only. -/
 namespace Girc.Props.C18
 open Girc Girc.Model
+
+/-- Tie: the two regular expressions in cmdhandler/cmd.go are the ones the hand matchers implement:
+    `^%s([a-z0-9-_]{1,20})(?: (.*))?$` and `^[a-z0-9-_]{1,20}$`. -/
+theorem gen_cmdMatch : Gen.str_cmdMatch = [0x5E, 0x25, 0x73, 0x28, 0x5B, 0x61, 0x2D, 0x7A, 0x30, 0x2D, 0x39, 0x2D, 0x5F, 0x5D, 0x7B, 0x31, 0x2C, 0x32, 0x30, 0x7D, 0x29, 0x28, 0x3F, 0x3A, 0x20, 0x28, 0x2E, 0x2A, 0x29, 0x29, 0x3F, 0x24] := by decide
+theorem gen_validName : Gen.str_validName = [0x5E, 0x5B, 0x61, 0x2D, 0x7A, 0x30, 0x2D, 0x39, 0x2D, 0x5F, 0x5D, 0x7B, 0x31, 0x2C, 0x32, 0x30, 0x7D, 0x24] := by decide
 
 theorem name_byte_spec : ∀ b : Byte, cmdNameByte b =
     ((0x61 ≤ b && b ≤ 0x7A) || (0x30 ≤ b && b ≤ 0x39) || b = 0x2D || b = 0x5F) := by decide +kernel
